@@ -51,6 +51,11 @@ func IncompleteGamma(x, alpha, ln_gamma_alpha float64) float64 {
 	factor = math.Exp(p*math.Log(x) - x - g)
 
 	if x > 1 && x >= p {
+		if factor == 0 {
+			// exp() underflow far in the upper tail: the result is 1 - 0*gin = 1, and for
+			// x > 1e102 the continued fraction below overflows to NaN and never terminates
+			return 1.0
+		}
 		goto l30
 	}
 	/* (1) series expansion */
